@@ -181,6 +181,22 @@ def rule_pair(fx, rep):
         rep.obligation(good)
         if not good:
             bad(f"save/{mk}", f"`{bm.name}` does not save the accumulator into History", bm)
+    # ... and what is saved is the value *before* the move's own updates (C02-HIST's "the read precedes every write", re-reported
+    # for the accumulator: seed C15-6a moved the castling rook's relocation in front of the snapshot)
+    import core
+    sub = type(rep)(rep.prop, rep.tier)
+    q = core.QUIET
+    core.QUIET = True
+    try:
+        pC02.rule_hist(fx, sub)
+    finally:
+        core.QUIET = q
+    stale = [v for v in sub.violations if v["key"].endswith("/save/incremental_eval")]
+    n += 1
+    rep.obligation(not stale)
+    for v in stale:
+        ok = False
+        rep.violation("C15-PAIR", v["key"].replace("C02-HIST", "C15-PAIR/save-stale"), v["msg"] + ": the take-back then restores an accumulator that already contains part of the move", v["site"])
     rep.rule("C15-PAIR", n, 11, ok, "board edit <-> accumulator update pairing; save/restore")
 
 
@@ -465,6 +481,9 @@ def rule_writers(fx, rep):
 G = "src/chess/game.rs"
 E = "src/engine/eval/mod.rs"
 MUTANTS = [
+    {"name": "castling rook relocated before the History snapshot is taken (seed C15-6a)", "expect": "C15-PAIR/save-stale",
+     "edits": [("src/chess/game.rs", "        let maybe_captured_piece = self.board.piece_at(to);\n\n        // Capture the irreversible aspects", "        if mv.is_castling() {\n            if let Some((rook_from, rook_to)) = squares::castle_squares(player, to) {\n                let rook = self.remove_at(rook_from);\n                self.set_at(rook_to, rook);\n            }\n        }\n\n        let maybe_captured_piece = self.board.piece_at(to);\n\n        // Capture the irreversible aspects"),
+               ("src/chess/game.rs", "        self.en_passant_target = new_en_passant_target;\n\n        if mv.is_castling() {\n            if let Some((rook_from, rook_to)) = squares::castle_squares(player, to) {\n                let rook = self.remove_at(rook_from);\n                self.set_at(rook_to, rook);\n            }\n        }\n", "        self.en_passant_target = new_en_passant_target;\n")]},
     {"name": "take-back of an en-passant capture re-adds the victim through Game::set_at (seed C15-5b)", "expect": "C15-PAIR/restore-final",
      "edits": [("src/chess/game.rs", "            self.board\n                .set_at(capture_square, Piece::new(other_player, PieceKind::Pawn));", "            self.set_at(capture_square, Piece::new(other_player, PieceKind::Pawn));"),
                ("src/chess/game.rs", "        self.player = player;\n        self.zobrist = history.zobrist;\n", "        self.player = player;\n"),
